@@ -270,7 +270,7 @@ impl BinOpCode {
             BinOpCode::Add => left.wrapping_add(right),
             BinOpCode::Sub => left.wrapping_sub(right),
             BinOpCode::Mul => left.wrapping_mul(right),
-            BinOpCode::Div => left.wrapping_div(right),  // FIXME: handle divide-by-zero
+            BinOpCode::Div => left.wrapping_div(right),  // apply() rejects a zero divisor
             BinOpCode::Or =>  left | right,
             BinOpCode::Xor => left ^ right,
             BinOpCode::And => left & right,
@@ -305,6 +305,9 @@ impl BinOpCode {
     }
 
     fn apply(self, left: WireValue, right: WireValue) -> Result<WireValue, Error> {
+        if self == BinOpCode::Div && right.bits == 0 {
+            return Err(Error::DivideByZero());
+        }
         let final_width = match self.kind() {
             BinOpKind::EqualWidth =>
                 match left.width.combine(right.width) {
